@@ -103,6 +103,12 @@ InsertMem(sorted, m) ==
   ELSE IF SeqLess(m.k, sorted[1].k) THEN <<m>> \o sorted
   ELSE <<sorted[1]>> \o InsertMem(Tail(sorted), m)
 
+\* the members of ONE object sorted (what lies inside the member values is left as it is: a struct inside a map keeps
+\* its declaration order)
+SortTop(v) == LET n == Len(v.m)
+                  f[i \in 0..n] == IF i = 0 THEN <<>> ELSE InsertMem(f[i-1], v.m[i])
+              IN  Obj(f[n])
+
 RECURSIVE SortKeys(_)
 SortKeys(v) ==
   CASE v.t = "obj" -> LET n == Len(v.m)
